@@ -43,10 +43,9 @@ def h_valid(t: str, n: int):
     exp = valid_text(t)
     if a.valid != exp:
         return ('valid-wrong', t, a.valid, exp)
-    p1 = a.parsable
-    if a.valid != exp or a.parsable != p1:
+    if a.valid != exp:
         return ('flag-not-stable', t)
-    if not exp and p1:
+    if not exp and a.parsable:
         return ('parsable-but-invalid', t)
     if str(a) != t or not (a == t) or not (a == AnsiSetting(t)):
         return ('setting-text', t, str(a))
@@ -206,10 +205,35 @@ def h_helpers(h: int, a: int, b: int, c: int):
     return True
 
 
+V_PAL = ('1', '2', '22', '38;5;9', ' 1', '99', '1;31', ';', '4;', '\x1b', '38;5', '\x1b1', '0', '?25', '1:2', '+1', '1 ')
+
+
+def _strip_check(s, v, n, parsable_like, opts=(True, False)):
+    if not s.is_formatting_valid():
+        return ('valid-setting-reported-invalid', v)
+    for o in opts:
+        for rs in (False, True):
+            for re_ in (False, True):
+                out = s.to_str(None, o, rs, re_)
+                toks = term.tokens(out)
+                text = ''.join(x for kind, x in toks if kind == 'chr')
+                if text != TEXT[:n]:
+                    return ('strip-leaves-garbage', v, (o, rs, re_), out, text)
+                # (a parsable verbatim setting may legitimately be optimised away when another setting shadows it)
+                if (not o or not parsable_like) and not any(kind == 'sgr' and v in x for kind, x in toks):
+                    return ('verbatim-setting-not-intact', v, (o, rs, re_), out)
+    return None
+
+
 def h_strip(v: str, vn: int, n: int, s1: int, r1: int, r2: int, top: bool):
-    """Valid formatting + ESC-free text: removing every ESC [ params m leaves base_str; the verbatim setting appears intact."""
-    if len(v) != vn or not valid_text(v):
+    """Valid formatting + ESC-free text: removing every ESC [ params m leaves base_str; the verbatim setting appears
+    intact.  v: any valid characters; the 4 optimize=False renderings (optimize=True calls parsable -> int() on a symbolic
+    string, which the engine cannot finish; h_strip_pal covers all 8 renderings for palette settings)."""
+    if len(v) != vn:
         return None
+    for c in v:
+        if 0x40 <= ord(c) <= 0x7E:
+            return None
     s = AnsiString(TEXT[:n])
     st = choose(s1, (('red', '31'), ('bold', '1'), ('[38;5;9', '38;5;9')))
     ra = choose(r1, ranges(n))
@@ -218,18 +242,9 @@ def h_strip(v: str, vn: int, n: int, s1: int, r1: int, r2: int, top: bool):
         return None
     s.apply_formatting(st[0], ra[0], ra[1])
     s.apply_formatting('[' + v, rb[0], rb[1], topmost=bool(top))
-    if not s.is_formatting_valid():
-        return ('valid-setting-reported-invalid', v)
-    for o in (True, False):
-        for rs in (False, True):
-            for re_ in (False, True):
-                out = s.to_str(None, o, rs, re_)
-                toks = term.tokens(out)
-                text = ''.join(x for kind, x in toks if kind == 'chr')
-                if text != TEXT[:n]:
-                    return ('strip-leaves-garbage', v, (o, rs, re_), out, text)
-                if not any(kind == 'sgr' and v in x for kind, x in toks):
-                    return ('verbatim-setting-not-intact', v, (o, rs, re_), out)
+    bad = _strip_check(s, v, n, False, opts=(False,))      # optimize=True needs parsable -> int() on a symbolic string
+    if bad:
+        return bad
     if ESC in v:
         cover('esc-in-setting')
     if ';' in v:
@@ -238,12 +253,29 @@ def h_strip(v: str, vn: int, n: int, s1: int, r1: int, r2: int, top: bool):
     return True
 
 
+def h_strip_pal(vi: int, n: int, s1: int, r1: int, r2: int, top: bool):
+    v = choose(vi, V_PAL)
+    s = AnsiString(TEXT[:n])
+    st = choose(s1, (('red', '31'), ('bold', '1'), ('[38;5;9', '38;5;9')))
+    ra = choose(r1, ranges(n))
+    rb = choose(r2, ranges(n))
+    if None in (v, st, ra, rb):
+        return None
+    s.apply_formatting(st[0], ra[0], ra[1])
+    s.apply_formatting('[' + v, rb[0], rb[1], topmost=bool(top))
+    bad = _strip_check(s, v, n, lenient(v))
+    if bad:
+        return bad
+    cover('stripped')
+    return True
+
+
 BOUNDS = {
-    'quick': 'valid: ALL strings (any Unicode) of length 1..5; parsable: all strings of length 1..4 over "0-9 ; blank + - m" and 14 structured '
+    'quick': 'valid: ALL strings (any Unicode) of length 1..9; parsable: all strings of length 1..4 over "0-9 ; blank + - m" and 14 structured '
              'forms x 5 introducers x values {0,1,255,256,38}; conjunction over values with 2 settings from an 8-setting alphabet (valid/invalid/'
              'unknown/multi-group/blank/incomplete); all AnsiFormat members x 3 spellings; all known codes; helpers on {0,1,127,255}; stripping '
-             'with a symbolic valid verbatim setting of length 1..2 over all 8 renderings',
-    'thorough': 'valid up to length 7, parsable up to length 5 over the alphabet, verbatim setting up to length 3',
+             'with a symbolic valid verbatim setting (any characters) of length 1..3 over the optimize=False renderings and 17 palette settings over all 8 renderings',
+    'thorough': 'valid up to length 12, parsable up to length 5 over the alphabet, verbatim setting up to length 3',
 }
 OUTSIDE = 'setting texts longer than the bound; blanks, signs and non-ASCII digits are a grey zone for parsable (either value accepted)'
 ASSUMPTIONS = ['"parameter bytes" = any character outside 0x40-0x7E (the library\'s reading)']
@@ -253,7 +285,7 @@ KINDS = 'C: setting text (any Unicode, bounded); E: alphabet indices, structured
 def obligations(tier):
     q = tier == 'quick'
     obs = [selftest_ob()]
-    for n in range(1, 6 if q else 8):
+    for n in range(1, 10 if q else 13):
         obs.append(Ob('valid/n%d' % n, h_valid, dict(n=n), need=('valid', 'invalid'), budget=900, bounds='all strings of length %d' % n, kinds=KINDS))
     for n in range(1, 5 if q else 6):
         f = dict(n=n)
@@ -278,7 +310,9 @@ def obligations(tier):
                       bounds='members %d..%d x 3 spellings' % (lo, min(lo + 49, n_members - 1)), kinds=KINDS))
     obs.append(Ob('codes', h_codes, {}, need=('code',), budget=300, bounds='all known non-reset single codes', kinds=KINDS))
     obs.append(Ob('helpers', h_helpers, {}, need=('helper',), budget=600, bounds='15 helpers on {0,1,127,255}', kinds=KINDS))
-    for vn in (1, 2) if q else (1, 2, 3):
-        obs.append(Ob('strip/v%d' % vn, h_strip, dict(vn=vn, n=2), need=('stripped',) + (('esc-in-setting',) if vn else ()), budget=1500, per_path=60,
-                      bounds='verbatim setting of length %d, n=2, 8 renderings' % vn, kinds=KINDS))
+    for vn in (1, 2, 3) if q else (1, 2, 3, 4):
+        obs.append(Ob('strip/v%d' % vn, h_strip, dict(vn=vn, n=2, s1=0, r1=1), need=('stripped', 'esc-in-setting'), budget=600, per_path=60,
+                      bounds='verbatim setting: any valid characters, length %d, n=2, the 4 optimize=False renderings' % vn, kinds=KINDS))
+    obs.append(Ob('strip/palette', h_strip_pal, dict(n=2), need=('stripped',), budget=900,
+                  bounds='17 digit-bearing / special verbatim settings x 3 settings x all range pairs x topmost, 8 renderings', kinds=KINDS))
     return obs
